@@ -1,31 +1,53 @@
-(* Prop_C10.v — property C10: comparisons are type-strict and numeric by value (partial).
-   Proved here, on the comparator/validator model of Eval.v: the validator chosen by the literal's
-   type blanks every operand of another JSON type; json.Number operands are replaced by their
-   float64 value before any comparison (so the verdict depends on the numeric value only); the
-   ordering comparators never reach their unchecked assertions on validated operands.
-   NOT yet proved (tied by the correspondence check only): the lifting of these element-wise facts
-   through compute/filter_loop to whole selections under both decodings (C10_decode_invariant). *)
-From JP Require Import Eval Verdict CompareFacts.
+(* Prop_C10.v — property C10: comparisons are type-strict and numeric by value, whatever the decoding.
+   Proved on the specification (which the implementation model refines exactly, C01_refines_spec):
+   * C10_decode_invariant — converting every float64 of a document into a json.Number whose spelling
+     determines its value (hypothesis spell_eq: true of Go's shortest formatting, which is the
+     property's own restriction for path == path) selects the SAME members with every filter built
+     from existence tests, the six comparison operators, regular expressions, literals, `@` and `$`
+     paths, &&, ||, ! — and the same cursors with every function-free path (C10_path_decode_invariant);
+   * type strictness and by-value comparison at the element level: only operands of the literal's JSON
+     type survive its validator, json.Number is replaced by its float64 value before any comparison,
+     ordering comparators never reach their unchecked assertions.
+   Scope of the first theorem: trees without user functions (a function such as "type name" may
+   legitimately tell float64 from json.Number) whose path == path comparisons have no literal operand
+   (the parser picks a typed comparator whenever a literal is involved).  Tie to the code: every
+   generated document is evaluated under both decodings on the real library. *)
+From JP Require Import Eval WF Verdict Spec CompareFacts SpecDecode.
 
-Theorem C10_type_strict_partial : forall vd x,
+Theorem C10_decode_invariant : forall (spell : num -> string),
+  (forall x y, finite x = true -> finite y = true -> String.eqb (spell x) (spell y) = num_eqb x y) ->
+  forall ffun afun regex_match q root vals,
+  fun_free_q q = true -> float_doc root -> Forall float_doc vals ->
+  holds ffun afun regex_match q (tojn spell root) (map (tojn spell) vals) = holds ffun afun regex_match q root vals.
+Proof. exact filter_decode_invariant. Qed.
+Print Assumptions C10_decode_invariant.
+
+Theorem C10_path_decode_invariant : forall (spell : num -> string),
+  (forall x y, finite x = true -> finite y = true -> String.eqb (spell x) (spell y) = num_eqb x y) ->
+  forall ffun afun regex_match t doc,
+  fun_free t = true -> float_doc doc ->
+  sp ffun afun regex_match t (tojn spell doc) (Some [], tojn spell doc)
+  = map (tjres spell) (sp ffun afun regex_match t doc (Some [], doc)).
+Proof. exact path_decode_invariant. Qed.
+Print Assumptions C10_path_decode_invariant.
+
+Theorem C10_type_strict : forall vd x,
   match (match validate_entry vd x with Some y => y | None => x end) with
   | Some v => exists w, x = Some w /\ vd_type vd w = true
   | None => True
   end.
 Proof. exact validate_entry_strict. Qed.
-Print Assumptions C10_type_strict_partial.
+Print Assumptions C10_type_strict.
 
-Theorem C10_json_number_by_value_partial : forall s f,
+Theorem C10_json_number_by_value : forall s f,
   validate_entry VdNumeric (Some (VJNum s f)) = Some (Some (VNum f)).
 Proof. exact validate_jnum. Qed.
-Print Assumptions C10_json_number_by_value_partial.
 
-Theorem C10_ordering_no_panic_partial : forall rm c b x,
+Theorem C10_ordering_no_panic : forall rm c b x,
   (c = CLt \/ c = CLe \/ c = CGt \/ c = CGe) -> numeric_entry x -> no_panic rm c (Some (VNum b)) x.
 Proof. exact ordering_no_panic. Qed.
-Print Assumptions C10_ordering_no_panic_partial.
 
-Theorem C10_numeric_after_validation_partial : forall x,
+Theorem C10_numeric_after_validation : forall x,
   numeric_entry (match validate_entry VdNumeric x with Some y => y | None => x end).
 Proof. exact validate_numeric. Qed.
-Print Assumptions C10_numeric_after_validation_partial.
+Print Assumptions C10_numeric_after_validation.
